@@ -193,6 +193,8 @@ def run(ctx):
             pws += gen_passwords.DETECTOR_ORDER_CORPUS    # several detectors in one password, labelled sections before and behind
             # a capital dotted I (lower-casing: two code points) next to an i that carries its combining dot already, in one section
             pws += ['\u0130zmi\u0307r2024', '\u0130i\u0307www.google.com', 'I\u0307stanbul\u0130#1', 'i\u0307\u0130pass']
+            # digits that are not ASCII digits (full-width, Arabic-Indic) behind a year prefix, in number runs and after symbols
+            pws += ['pass19\uff19\uff19!', '20\uff12\uff14love1984', '\u0661\u0662\u0663abc', 'abc\uff11\uff12', '#1\uff15x']
         if i == 2:
             pws = gen_passwords.FRESH_LENGTHS_CORPUS + pws
         if not tame:
